@@ -8666,6 +8666,9 @@ def aten_roll(self: TTensor, shifts: Sequence[int], dims: Sequence[int] = ()) ->
         result = self
         for i, shift in enumerate(shifts):
             dim = dims[i]
+            if dim < 0:
+                # Shape(start=dim, end=dim + 1) would be empty for dim == -1
+                dim = dim + self_rank
             result = _aten_roll_shift_and_dim_onnx(result, shift, dim)
         return result
 
@@ -8712,33 +8715,38 @@ def _aten_roll_shift_no_dim_onnx(self: TTensor, shift: int) -> TTensor:
     neg_1 = op.Constant(value_ints=[-1])
     # flatten the self tensor: from [[A,B],[C,D]] to [A,B,C,D]
     self_flatten = op.Reshape(self, neg_1)
-    # Compute slice length
-    if shift < 0:
-        # For [A,B,C,D], if shift is -1, slice_length = -(-1) = 1, means move [A] to the end
-        slice_length = op.Constant(value_ints=[-shift])
-    else:
-        # For [A,B,C,D], if shift is 1, slice_length = 4 - 1 = 3, means move [A,B,C] to the end
-        # The effect equals to move [D] to the beginning
-        slice_length = op.Size(self_flatten) - op.Constant(value_ints=[shift])
+    # torch.roll wraps the shift around the number of elements n: rolling by `shift`
+    # moves the first (-shift mod n) elements to the end.
+    # For [A,B,C,D]: shift -1 -> 1 ([A] goes to the end), shift 1 -> 3 ([A,B,C] go to the end),
+    # shift 5 -> 3, shift -6 -> 2. max(n, 1) keeps the modulus non-zero for an empty tensor.
+    numel = op.Reshape(op.Size(self_flatten), neg_1)
+    slice_length = op.Mod(
+        op.Constant(value_ints=[-shift]), op.Max(numel, op.Constant(value_ints=[1]))
+    )
     # Get second part of the tensor, e.g. [A,B,C]
     suffix = op.Slice(self_flatten, op.Constant(value_ints=[0]), slice_length)
     # Get first part of the tensor, e.g. [D]
-    prefix = op.Slice(self_flatten, slice_length, op.Reshape(op.Size(self_flatten), neg_1))
+    prefix = op.Slice(self_flatten, slice_length, op.Constant(value_ints=[_INT64_MAX]))
     # Concat first+second together, e.g. [D,A,B,C]
     result = op.Concat(prefix, suffix, axis=0)
-    return op.Reshape(result, op.Shape(self))
+    # allowzero: an extent of 0 in the original shape is an extent, not "copy the input dimension"
+    return op.Reshape(result, op.Shape(self), allowzero=True)
 
 
 def _aten_roll_shift_and_dim_onnx(self: TTensor, shift: int, dim: int) -> TTensor:
-    neg_1 = op.Constant(value_ints=[-1])
     dim_tensor = op.Constant(value_ints=[dim])
-    if shift < 0:
-        slice_length = op.Constant(value_ints=[-shift])
-    else:
-        slice_length = op.Shape(self, start=dim, end=dim + 1) - op.Constant(value_ints=[shift])
+    # torch.roll wraps the shift around the size n of the dimension: rolling by `shift`
+    # moves the first (-shift mod n) entries to the end. max(n, 1) keeps the modulus
+    # non-zero for an empty dimension.
+    dim_size = op.Shape(self, start=dim, end=dim + 1)
+    slice_length = op.Mod(
+        op.Constant(value_ints=[-shift]), op.Max(dim_size, op.Constant(value_ints=[1]))
+    )
     # from [A,B,C,D] -> [D,A,B,C], [D] is prefix, [A,B,C] is suffix
     suffix = op.Slice(self, op.Constant(value_ints=[0]), slice_length, axes=dim_tensor)
-    prefix = op.Slice(self, slice_length, op.Reshape(op.Size(self), neg_1), axes=dim_tensor)
+    prefix = op.Slice(
+        self, slice_length, op.Constant(value_ints=[_INT64_MAX]), axes=dim_tensor
+    )
     result = op.Concat(prefix, suffix, axis=dim)
     return result
 
